@@ -33,7 +33,7 @@ ASSUMPTIONS = [
 SHARDS = {"quick": 16, "thorough": 16}
 MINIMUMS = {
     "quick": {"crash_cases": 600, "deaths_at_point": 550, "relaunches": 600, "natural_ends": 8, "locks_tried": 300, "signal:SIGKILL": 80, "signal:SIGTERM": 80, "signal:SIGINT": 80, "signals_in_body": 30, "signals_in_finalizer": 8, "double_faults": 40},
-    "thorough": {"crash_cases": 3000, "deaths_at_point": 2500, "relaunches": 3500, "natural_ends": 40, "locks_tried": 3000, "double_faults": 500, "signals_in_body": 300, "signals_in_finalizer": 8},
+    "thorough": {"crash_cases": 1200, "deaths_at_point": 1100, "relaunches": 2000, "natural_ends": 40, "locks_tried": 1200, "double_faults": 200, "signals_in_body": 120, "signals_in_finalizer": 8},
 }
 TIMEOUT = {"quick": 2400, "thorough": 14400}
 INJECT = str(VERIF / "lib" / "inject")
